@@ -102,6 +102,22 @@ Credit(testRows, train, preds, nb, i, stat) ==
 EvalArm(testRows, train, preds, nb, a, stat) ==
     LET idx == SelectSeq([i \in DOMAIN preds |-> i], LAMBDA i : preds[i] = a)
     IN  StatsOf([k \in DOMAIN idx |-> Credit(testRows, train, preds, nb, idx[k], stat)])
+(* the neighbourhood statistics a Radius bandit reports for test position i: min / mean / max of the rewards of each arm *)
+(* over the history rows within the radius (history = training rows, then the test rows of earlier batches)         *)
+AbsI(v) == IF v < 0 THEN -v ELSE v
+RECURSIVE DistFrom(_, _, _, _)
+DistFrom(metric, x, y, j) ==
+    IF j > Len(x) THEN 0
+    ELSE LET dj == AbsI(x[j] - y[j])  rest == DistFrom(metric, x, y, j + 1)
+         IN  IF metric = "cityblock" THEN dj + rest ELSE (IF dj > rest THEN dj ELSE rest)
+HistoryAt(trainRows, testRows, i, B) ==
+    IF B = 0 THEN trainRows ELSE trainRows \o SubSeq(testRows, 1, ((i - 1) \div B) * B)
+NbStat(trainRows, testRows, i, B, metric, radius, a) ==
+    LET near == SelectSeq(HistoryAt(trainRows, testRows, i, B),
+                          LAMBDA row : row.a = a /\ DistFrom(metric, row.x, testRows[i].x, 1) <= radius)
+        st == StatsOf([k \in DOMAIN near |-> R(near[k].r)])
+    IN  IF st.count = 0 THEN <<0>> ELSE <<1, st.min, st.mean, st.max>>
+
 (* online runs report the same analysis per batch: test positions lo..hi only (credited with the statistics of the *)
 (* initial training rows and of each row's OWN neighbourhood)                                                    *)
 EvalArmIn(testRows, train, preds, nb, a, stat, lo, hi) ==
